@@ -42,7 +42,9 @@ CASES = [
       "+numpy.conj(ht[bb,Nt-1]))", "+ht[bb,Nt-1])"),
     m("TD Foerster dephasing without conj (the repaired defect)", "C01-B", R + "tdfoerstertensor.py",
       "(ht[aa,:]+numpy.conj(ht[bb,:]))", "(ht[aa,:]+ht[bb,:])"),
-    m("updateStructure called twice", "C01-B", R + "foerstertensor.py",
+    # (since 79581c0 updateStructure assigns the depopulation rates: a second call, or a value written on the diagonal
+    #  before it, no longer changes the tensor - these two former mutants are twins now)
+    t("updateStructure called twice", R + "foerstertensor.py",
       "            self.updateStructure()\n", "            self.updateStructure()\n            self.updateStructure()\n"),
     {"name": "updateStructure moved before the rates", "kind": "mutant", "rule": "C01-B", "edits": [
         (R + "foerstertensor.py",
@@ -53,7 +55,7 @@ CASES = [
     m("updateStructure: dephasing not mirrored", "C01-B", R + "relaxationtensor.py",
       "                    self._data[mm,nn,mm,nn] = self._data[nn,mm,nn,mm] \n\n        else:",
       "                    pass\n\n        else:"),
-    m("diagonal rate written before completion", "C01-B", R + "foerstertensor.py",
+    t("diagonal rate written before completion", R + "foerstertensor.py",
       "                    if aa != bb:\n                        self.data[aa,aa,bb,bb] = frm.data[aa,bb]",
       "                    if True:\n                        self.data[aa,aa,bb,bb] = frm.data[aa,bb]"),
     m("secular mask widened (keeps R[a,b,b,a])", "C01-C", R + "secular.py",
@@ -165,4 +167,16 @@ CASES += [
         (_NEF, _RRL, "    RR -= numpy.einsum(\"ac,cb,tccab->tab\", JJ, JJ, fKK)\n", 1)]},
     {"name": "operator part of the NE Foerster tensor as the correct einsum", "kind": "twin", "edits": [
         (_NEF, _RRL, "    RR -= numpy.einsum(\"ac,cb,tccba->tab\", JJ, JJ, fKK)\n", 1)]},
+]
+
+_RT1 = "quantarhei/qm/liouvillespace/relaxationtensor.py"
+CASES += [
+    {"name": "depopulation rates subtracted in place (the repaired defect)", "kind": "mutant", "rule": "C01-K", "edits": [
+        (_RT1, "                self._data[nn,nn,nn,nn] = -(numpy.trace(self._data[:,:,nn,nn])\n", "                self._data[nn,nn,nn,nn] -= (numpy.trace(self._data[:,:,nn,nn])\n", 1)]},
+    {"name": "depopulation rate is minus the whole trace", "kind": "mutant", "rule": "C01-K", "edits": [
+        (_RT1, "                self._data[nn,nn,nn,nn] = -(numpy.trace(self._data[:,:,nn,nn])\n                                            - self._data[nn,nn,nn,nn])\n",
+               "                self._data[nn,nn,nn,nn] = -(numpy.trace(self._data[:,:,nn,nn]))\n", 1)]},
+    {"name": "depopulation rate written as diagonal minus trace", "kind": "twin", "edits": [
+        (_RT1, "                self._data[nn,nn,nn,nn] = -(numpy.trace(self._data[:,:,nn,nn])\n                                            - self._data[nn,nn,nn,nn])\n",
+               "                self._data[nn,nn,nn,nn] = (self._data[nn,nn,nn,nn]\n                                            - numpy.trace(self._data[:,:,nn,nn]))\n", 1)]},
 ]
